@@ -16,7 +16,7 @@ FUNCTIONS = [
 ]
 BOUNDS = ("(A) recording hooks: cell grid entry {move, move_absolute, rapid, rapid_absolute} x "
           "distance mode x which pre-position axes are None (quick 3, thorough 8 patterns) x which "
-          "arguments are given (8) x number of hooks (1, 2); solver over the pre-position, the "
+          "arguments are given (8) x number of hooks (1, 2, or a last hook that returns a NEW dict without the F it was given); solver over the pre-position, the "
           "arguments and the E value the hook returns. Checked: each hook is called exactly once "
           "per linear move (never for rapids) with origin = resolved pre-position and target = "
           "independently computed absolute target; the parameters returned by the last hook are "
@@ -26,6 +26,8 @@ BOUNDS = ("(A) recording hooks: cell grid entry {move, move_absolute, rapid, rap
           "{move, move_absolute} x geometry (3 concrete (layer, nozzle, filament) triples); solver "
           "over pre-position, arguments, h in [0,1e6] and the previous E in [-1e6,1e6]. Checked: hypot arguments = XY "
           "displacement; E = area ratio * h (relative extrusion) or previous E + that (absolute). "
+          "History cells: move, then a command without an E word (rapid, probe, distance-mode "
+          "switch) or an E reset (set_axis(E=0)), then move: the running total continues / restarts. "
           "Interpolated segments: tracer frame condition (every vertex is one move()) plus a recording "
           "hook under the parametric() emission loop (two symbolic vertices).")
 ASSUMPTIONS = [
@@ -80,10 +82,20 @@ def _make_record(entry, rel, prepat, argpat, nhooks):
             out.update(E=e2, Q=7.0)
             return out
 
+        def hook_c(origin, target, params, state):
+            calls.append(("c", tuple(origin), tuple(target), dict(params), state is g.state))
+            out = type(params)({k: v for k, v in params.items() if k != "F"})   # drops F
+            out.update(E=e2)
+            return out
+
         g.add_hook(hook_a)
         if nhooks == 2:
             g.add_hook(hook_b)
+        if nhooks == 3:
+            g.add_hook(hook_c)
         kw = {k: v for k, v in zip("xyz", args) if v is not None}
+        if nhooks == 3:
+            kw["F"] = 1200.0
         e = attempt(getattr(g, entry), **kw)
         if e is not None:
             msg = f"{exc_name(e)}: {e}"
@@ -96,7 +108,8 @@ def _make_record(entry, rel, prepat, argpat, nhooks):
                 return V(f"{entry}-hook-called-for-rapid", ctx)
             reached("rapid")
             return None
-        if len(calls) != nhooks or [c[0] for c in calls] != ["a", "b"][:nhooks]:
+        order = {1: ["a"], 2: ["a", "b"], 3: ["a", "c"]}[nhooks]
+        if [c[0] for c in calls] != order:
             return V(f"{entry}-hook-call-count-or-order", ctx)
         origin_want = tuple(0 if c is None else c for c in pos)
         # move_absolute always targets absolute coordinates, whatever the distance mode
@@ -111,7 +124,7 @@ def _make_record(entry, rel, prepat, argpat, nhooks):
                 if not num_eq(target[i], target_want[i]):
                     return V(f"{entry}-hook-target-wrong",
                              lambda: f"hook {tag}: target {target!r}, expected {target_want!r}; {ctx()}")
-        e_want = e2 if nhooks == 2 else e1
+        e_want = e1 if nhooks == 1 else e2
         try:
             words = _motion_words(rec)
         except Malformed as mf:
@@ -122,6 +135,10 @@ def _make_record(entry, rel, prepat, argpat, nhooks):
                      lambda: f"E emitted {emitted.get('E')!r}, hook returned {e_want!r}; {ctx()}")
         if nhooks == 2 and ("Q" not in emitted or not num_eq(emitted["Q"], 7.0)):
             return V(f"{entry}-hook-parameters-not-emitted", lambda: f"Q missing; {ctx()}")
+        if nhooks == 3 and ("F" in emitted or g.get_parameter("F") is not None):
+            return V(f"{entry}-parameter-dropped-by-the-hook-still-emitted-or-remembered",
+                     lambda: f"the last hook returned no F, yet F is emitted/remembered "
+                             f"({emitted.get('F')!r}, {g.get_parameter('F')!r}); {ctx()}")
         got = g.get_parameter("E")
         if got is None or not num_eq(got, e_want):
             return V(f"{entry}-hook-parameters-not-remembered",
@@ -131,6 +148,92 @@ def _make_record(entry, rel, prepat, argpat, nhooks):
             return V(f"{entry}-hook-parameters-not-remembered-by-state",
                      lambda: f"state.get_parameter('E')={sgot!r}, hook returned {e_want!r}; {ctx()}")
         reached("linear")
+        return None
+    return h
+
+
+def _make_extrusion_history(rel, ext_rel, middle):
+    """move, <middle command without an E word>, move: in absolute extrusion mode the running
+    total continues across the middle command (restarts only after an E reset)."""
+    import importlib
+    eh_mod = importlib.import_module("gscrib.hooks.extrusion_hook")
+    layer, nozzle, filament = GEOMETRIES[0]
+    ratio = (nozzle * layer) / (math.pi * (filament / 2.0) * (filament / 2.0))
+
+    class Stub2(_MathStub):
+        def __init__(self, hs):
+            super().__init__(None)
+            self.hs = list(hs)
+
+        def hypot(self, *args):
+            self.calls.append(args)
+            return self.hs[len(self.calls) - 1]
+
+    def h(px: Finite, py: Finite, ax: Finite, ay: Finite, bx: Finite, h1: Finite, h2: Finite,
+          e0: Finite):
+        for v in (h1, h2):
+            assume(v >= 0)
+            assume(v <= 1e6)
+        assume(e0 >= -1e6)
+        assume(e0 <= 1e6)
+        pre = mkpre(pos=(px, py, 1.0), relative=rel, extrusion="relative" if ext_rel else "absolute",
+                    params={"E": e0})
+        g, rec = prepare(pre)
+        stub = Stub2([h1, h2])
+        old_math = eh_mod.math
+        if MODE.symbolic:
+            eh_mod.math = stub
+        try:
+            g.add_hook(eh_mod.extrusion_hook(layer, nozzle, filament))
+            e = attempt(g.move, x=ax, y=ay)
+            if e is None:
+                if middle == "rapid":
+                    e = attempt(g.rapid, z=5.0)
+                elif middle == "probe":
+                    e = attempt(g.probe, "towards", z=-1.0)
+                elif middle == "reset":
+                    e = attempt(g.set_axis, E=0.0)
+                elif middle == "mode":
+                    e = attempt(g.set_distance_mode, "relative" if not rel else "absolute")
+            rec.clear()
+            if e is None:
+                if middle == "mode":
+                    e = attempt(g.move, x=bx)
+                else:
+                    e = attempt(g.move, x=bx)
+        finally:
+            eh_mod.math = old_math
+        if e is not None:
+            msg = f"{exc_name(e)}: {e}"
+            return V("extrusion-history-unexpected-exception", msg)
+        if MODE.symbolic:
+            l1, l2 = h1, h2
+        else:
+            t1 = _target((px, py, 1.0), (ax, ay, None), rel)
+            rel2 = (not rel) if middle == "mode" else rel
+            t2 = _target(t1, (bx, None, None), rel2)
+            l1 = math.hypot(t1[0] - px, t1[1] - py)
+            l2 = math.hypot(t2[0] - t1[0], t2[1] - t1[1])
+        if ext_rel:
+            want = ratio * l2
+        elif middle == "reset":
+            want = ratio * l2
+        else:
+            want = e0 + ratio * l1 + ratio * l2
+        try:
+            words = _motion_words(rec)
+        except Malformed as mf:
+            return V("extrusion-malformed-output", str(mf))
+        emitted = {w.letter: w.value for w in words}
+        tol = 1e-6 if MODE.symbolic else 1e-3
+        if "E" not in emitted:
+            return V("extrusion-no-E-word", lambda: f"output={rec.text()!r}")
+        d = emitted["E"] - want
+        if d > tol or -d > tol:
+            return V("extrusion-running-total-wrong-after-" + middle,
+                     lambda: f"second move E={emitted['E']!r}, expected {want!r} (previous E {e0!r}, "
+                             f"lengths {l1!r}, {l2!r}, ratio {ratio!r}, extrusion_relative={ext_rel})")
+        reached("extruded")
         return None
     return h
 
@@ -266,8 +369,10 @@ def cells(tier):
         for rel in (False, True):
             for prepat in prepats:
                 for argpat in PATTERNS:
-                    for nhooks in (1, 2):
-                        if quick and (nhooks == 2 or entry.startswith("rapid")) and \
+                    for nhooks in (1, 2, 3):
+                        if nhooks == 3 and entry.startswith("rapid"):
+                            continue
+                        if quick and (nhooks >= 2 or entry.startswith("rapid")) and \
                                 argpat not in ((True, True, True), (True, False, False)):
                             continue
                         name = (f"record|{entry}|{'rel' if rel else 'abs'}|pre="
@@ -280,6 +385,16 @@ def cells(tier):
         out.append(Cell(f"record|trace-parametric|{'rel' if rel else 'abs'}", _make_trace_hook(rel),
                         budget_s=120 if quick else 600, must_reach=("linear",),
                         entry="PathTracer.parametric (emission) + hooks"))
+    for rel in (False, True):
+        for ext_rel in (False, True):
+            for middle in ("rapid", "probe", "reset", "mode"):
+                if quick and rel and middle in ("probe", "mode"):
+                    continue
+                out.append(Cell(f"extrusion-history|{'rel' if rel else 'abs'}|ext="
+                                f"{'rel' if ext_rel else 'abs'}|middle={middle}",
+                                _make_extrusion_history(rel, ext_rel, middle),
+                                budget_s=120 if quick else 600, must_reach=("extruded",),
+                                entry="extrusion_hook.hook_function (history)"))
     for entry in ("move", "move_absolute"):
         for rel in (False, True):
             for ext_rel in (False, True):
